@@ -1,7 +1,7 @@
 """C06 / C11 / C12: workloads for a Uni + stream executor under tokio's virtual clock, and the status-cell cases."""
 from .driver import Case
 
-HEADER = "From Coq Require Import List ZArith. Import ListNotations. From RM Require Import Exec. Open Scope Z_scope."
+HEADER = "From Coq Require Import List ZArith. Import ListNotations. From RM Require Import Exec MExec. Open Scope Z_scope."
 
 ERRDELAY = 3      # ms the (awaited) error callback of the futures+fallible executor takes in the harness
 def mk_case(kind, chan, L, tau, tclose, items, instr="metrics", R=0, tpre=0, precancel=0):
@@ -64,9 +64,10 @@ def gen_reclose_case(rng):
 MKINDS = ("arc_atomic", "arc_full_sync", "arc_crossbeam", "ogre_arc_atomic", "ogre_arc_full_sync")
 def mk_mcase(chan, k, L, tclose, durs, cancel=-1, tcancel=0):
     """a Multi with k listeners, each with a futures executor of concurrency limit L; listener i takes dur * (i + 1) ms per item; optionally
-    listener `cancel` is removed individually (flush_and_cancel_executor) at `tcancel` ms, after the first half of the events (no model: oracle only)"""
+    listener `cancel` is removed individually (flush_and_cancel_executor) at `tcancel` ms, after the first half of the events (then: oracle only)"""
     line = "mexec chan=%s k=%d L=%d tclose=%d%s ; %s ; S" % (chan, k, L, tclose, " cancel=%d tcancel=%d" % (cancel, tcancel) if cancel >= 0 else "", " ".join("it:%d" % d for d in durs))
-    return Case(line, None, dict(profile="mexec", chan=chan, k=k, L=L, tclose=tclose, items=durs, cancel=cancel, tcancel=tcancel))
+    coq = ("mexec_trace %d %d [%s] %d" % (k, L, "; ".join(str(d) for d in durs), tclose)) if cancel < 0 else None   # model: MExec.v (no individual removal)
+    return Case(line, coq, dict(profile="mexec", chan=chan, k=k, L=L, tclose=tclose, items=durs, cancel=cancel, tcancel=tcancel))
 
 def gen_mcase_removal(rng):
     k = rng.randint(1, 4)
